@@ -12,12 +12,15 @@ enum attrprefix {
 static char *
 strip(char *name)
 {
+	static char buf[64];
 	size_t len;
 
+	/* the spelling may belong to the replacement list of a macro: do not modify it */
 	len = strlen(name);
-	if (len >= 4 && name[0] == '_' && name[1] == '_' && name[len - 2] == '_' && name[len - 1] == '_') {
-		name[len - 2] = '\0';
-		name += 2;
+	if (len >= 4 && len - 4 < sizeof(buf) && name[0] == '_' && name[1] == '_' && name[len - 2] == '_' && name[len - 1] == '_') {
+		memcpy(buf, name + 2, len - 4);
+		buf[len - 4] = '\0';
+		name = buf;
 	}
 	return name;
 }
